@@ -1023,6 +1023,22 @@ impl<'a, 'b> GeneratorState<'a> {
                             .compiler_state
                             .syntax_error("Code too complex for the compiler", pos));
                     }
+                    let v = self.compiler_state.get_variable(s);
+                    if v.var_type == VariableType::ShortPtr || v.var_type == VariableType::CharPtrPtr {
+                        // An element of a table of 16-bit values: both bytes decide
+                        self.generate_condition_16bits(
+                            &expr,
+                            if negate {
+                                &Operation::Eq
+                            } else {
+                                &Operation::Neq
+                            },
+                            &ExprType::Immediate(0),
+                            pos,
+                            label,
+                        )?;
+                        return Ok(None);
+                    }
                     self.asm(LDA, &expr, pos, false)?;
                     self.flags = FlagsState::AbsoluteX(s.clone());
                 }
@@ -1031,6 +1047,22 @@ impl<'a, 'b> GeneratorState<'a> {
                         return Err(self
                             .compiler_state
                             .syntax_error("Code too complex for the compiler", pos));
+                    }
+                    let v = self.compiler_state.get_variable(s);
+                    if v.var_type == VariableType::ShortPtr || v.var_type == VariableType::CharPtrPtr {
+                        // An element of a table of 16-bit values: both bytes decide
+                        self.generate_condition_16bits(
+                            &expr,
+                            if negate {
+                                &Operation::Eq
+                            } else {
+                                &Operation::Neq
+                            },
+                            &ExprType::Immediate(0),
+                            pos,
+                            label,
+                        )?;
+                        return Ok(None);
                     }
                     self.asm(LDA, &expr, pos, false)?;
                     self.flags = FlagsState::AbsoluteY(s.clone());
